@@ -251,3 +251,87 @@ func seqInts(n int) []int {
 }
 
 var _ = fmt.Sprint
+
+// C16 (pick-first selector): the selector used where one node serves a whole group - every coordinator
+// picks the same node for the same set of live nodes, whatever the history of additions and removals.
+func TestVerifC16PickFirst(t *testing.T) {
+	nodeNames := []string{"n1", "n2", "n3", "n4", "n5", "node-a", "node-b", "data-0"}
+	type pfCase struct {
+		Events []c16Event `json:"events"`
+	}
+	verifkit.Run(t, verifkit.Spec[pfCase]{
+		Property: "C16", Unit: "pick_first",
+		Rule: "event histories of 0..30 add-node (incl. repeated) and remove-node (incl. of unknown nodes) events over 8 node names fed to the real pick-first " +
+			"selector, with a Pick after every event; oracle: Pick fails exactly when no node is live, otherwise it returns the smallest live node - the node a " +
+			"second selector fed only the final live set returns - and never a removed node; non-trivial = >= 3 nodes were live at some point and a node other than " +
+			"the last two in order was removed",
+		Gen: func(t *rapid.T, _ *verifkit.KnownSet) pfCase {
+			var c pfCase
+			for i := rapid.IntRange(0, 30).Draw(t, "n"); i > 0; i-- {
+				kind := "add-node"
+				if rapid.IntRange(0, 2).Draw(t, "kind") == 0 {
+					kind = "del-node"
+				}
+				c.Events = append(c.Events, c16Event{Kind: kind, Name: rapid.SampledFrom(nodeNames).Draw(t, "nd")})
+			}
+			return c
+		},
+		Check: func(x *verifkit.Ctx, c pfCase) error {
+			sel, err := NewPickFirstSelector()
+			if err != nil {
+				return err
+			}
+			live := map[string]bool{}
+			interesting := false
+			for i, e := range c.Events {
+				n := &databasev1.Node{Metadata: &commonv1.Metadata{Name: e.Name}}
+				if e.Kind == "add-node" {
+					sel.AddNode(n)
+					live[e.Name] = true
+				} else {
+					if live[e.Name] && len(live) >= 3 {
+						var order []string
+						for k := range live {
+							order = append(order, k)
+						}
+						sort.Strings(order)
+						if e.Name != order[len(order)-1] && e.Name != order[len(order)-2] {
+							interesting = true
+						}
+					}
+					sel.RemoveNode(n)
+					delete(live, e.Name)
+				}
+				got, perr := sel.Pick("g", "", 0, 0)
+				if len(live) == 0 {
+					if perr == nil {
+						return verifkit.Failf("after event %d (%s %s): Pick returned %q although no node is live", i, e.Kind, e.Name, got)
+					}
+					continue
+				}
+				var order []string
+				for k := range live {
+					order = append(order, k)
+				}
+				sort.Strings(order)
+				if perr != nil {
+					return verifkit.Failf("after event %d (%s %s): Pick failed with %v although %v are live", i, e.Kind, e.Name, perr, order)
+				}
+				fresh, _ := NewPickFirstSelector()
+				for _, k := range order {
+					fresh.AddNode(&databasev1.Node{Metadata: &commonv1.Metadata{Name: k}})
+				}
+				want, _ := fresh.Pick("g", "", 0, 0)
+				if got != want || got != order[0] {
+					return verifkit.Failf("after event %d (%s %s): this coordinator picks %q, a coordinator that learned only the live nodes %v picks %q", i, e.Kind, e.Name, got, order, want)
+				}
+			}
+			x.LabelIf(interesting, "removal of a node that is not among the last two")
+			if interesting {
+				x.NonTrivial()
+			}
+			return nil
+		},
+		MinLabelFrac: map[string]float64{"removal of a node that is not among the last two": 0.2},
+	})
+}
